@@ -229,7 +229,7 @@ def prove(run, pid, extra_targets=()):
     # every generated file is brought up to date with /repo first, so that the proofs are always
     # checked against what the code says NOW, whatever ran before
     build_translator()
-    for kind, outfile in (("treemath", "TreeMathGen.v"), ("codec", "CodecTypes.v"), ("effects", "ProcessEffects.v"), ("window", "WindowGen.v"), ("kem", "KemGen.v"), ("pathreq", "PathReqGen.v"), ("ratchet", "RatchetGen.v"), ("admission", "AdmissionGen.v"), ("resume", "ResumeGen.v"), ("privgen", "PrivGen.v"), ("nodevec", "NodeVecGen.v"), ("transcript", "TranscriptGen.v"), ("latesender", "LateSenderGen.v"), ("welcome", "WelcomeGen.v"), ("keysched", "KeySchedGen.v"), ("reinitrule", "ReinitGen.v"), ("hashcache", "HashCacheGen.v"), ("parenthash", "ParentHashGen.v")):
+    for kind, outfile in (("treemath", "TreeMathGen.v"), ("codec", "CodecTypes.v"), ("effects", "ProcessEffects.v"), ("window", "WindowGen.v"), ("kem", "KemGen.v"), ("pathreq", "PathReqGen.v"), ("ratchet", "RatchetGen.v"), ("admission", "AdmissionGen.v"), ("resume", "ResumeGen.v"), ("privgen", "PrivGen.v"), ("nodevec", "NodeVecGen.v"), ("transcript", "TranscriptGen.v"), ("latesender", "LateSenderGen.v"), ("welcome", "WelcomeGen.v"), ("keysched", "KeySchedGen.v"), ("reinitrule", "ReinitGen.v"), ("hashcache", "HashCacheGen.v"), ("parenthash", "ParentHashGen.v"), ("varint", "VarIntGen.v")):
         okg, msg = regen(kind, outfile)
         if not okg:
             run.notes.append(f"translation ({kind}) failed: {msg[-300:]}")
